@@ -26,7 +26,9 @@ for c in "$@"; do
   fls="scaled prod"
   case $c in C07|C15|C16|C17|C18|C19|C20) fls="prod";; esac
   for fl in $fls; do
-    $T/vcheck-$fl $c --tier quick --seed ${VERIF_SEED:-0} --out $T/part.json 2>&1 | grep -E "^\[C|DETAIL|VIOLATION|INCONCL|unknown property" | cut -c1-360
+    $T/vcheck-$fl $c --tier quick --seed ${VERIF_SEED:-0} --out $T/part.json > $T/out.log 2>&1; rc=$?
+    grep -E "^\[C|DETAIL|VIOLATION|INCONCL|unknown property|HARNESS" $T/out.log | cut -c1-360
+    [ $rc -gt 2 ] && echo "[$c/$fl] vcheck ended with status $rc (killed or crashed): $(tail -2 $T/out.log | cut -c1-200)"
   done
 done
 rm -rf $T
